@@ -50,3 +50,13 @@ reg("C04", "translation_validation", "co-execution: emitted RTLIL parsed and int
     "pos/neg/async-reset domains, two-domain designs, memories, FIFOs, CDC cells) is converted with back.rtlil.convert; the text is interpreted under the published cell semantics and compared with the Python "
     "simulator on every output/register after every step: all input valuations for comb programs, register states loaded into both sides for sync programs, breadth-first joint state graph for sequential designs.",
     "Trusted: vf/rtlil/parse.py + vf/rtlil/interp.py (written from the Yosys cell library documentation; cannot be cross-checked against Yosys here), triage of each disagreement against vf/ref. Undefined RTLIL points (read-port power-on value) are compared under the 0 interpretation.")
+reg("C07", "exploration", "bounded-exhaustive enumeration of hierarchies / name clashes / instances / memories, each emitted RTLIL document checked by a structural validator implementing the statement",
+    "Every design of the enumerated families (4-node hierarchies with driver/user in every pair of nodes, 14 name pairs incl. duplicates, de-duplication-suffix clashes for every suffix value, "
+    "private names, zero width, partial use, anonymous/duplicate/empty submodules; foreign instances with every parameter kind at 3 hierarchy levels; memories; library and statement-batch "
+    "designs) is converted and the text validated: grammar, existence, unique names, equal widths, slice bounds, dense port ids, exactly one driver per wire bit, submodule port agreement, instance fidelity.",
+    "Trusted: vf/rtlil/parse.py and vf/rtlil/validate.py (cell port directions from the Yosys cell library). Signal names containing whitespace are outside the alphabet (the statement does not list them).")
+reg("C14", "exploration", "bounded-exhaustive enumeration of signature trees, interface tuples, argument permutations and single-point corruptions against an independent tree-walk oracle; connect() observed through the statement map and exhaustive-value simulation",
+    "Every signature tree inside the bounds (depth<=3, <=2 members per level, In/Out at each level, array dimensions on ports and sub-signatures, 5 shapes x 2 inits) is checked for flip/flatten/create laws, "
+    "connected in up to 8 tuple constructions x all argument permutations (simulated with every value of every output leaf), subjected to every single-point corruption (exactly ConnectionError, no statements added), and its "
+    "component metadata compared with an oracle document and validated against the published schema.",
+    "Trusted: vf/ref/c14_tree.py. A dimension mismatch is only required to raise (any exception), as the statement does not list it.")
